@@ -373,7 +373,12 @@ PROPS["C06"] = dict(
                "name are run at real size on the real binary: 1..600 000 one-byte arguments, 4 KiB..128 KiB arguments, one argument over the "
                "per-string limit, 5 000 environment variables, stack limits 512 KiB..unlimited, with -n/-s; a recorder in summary mode shows every "
                "argument delivered once and in order (count + hash per invocation); TLC validates the runs, and direct execve probes near the "
-               "model's boundary calibrate the kernel model (a mismatch is a tool error, never a violation).",
+               "model's boundary calibrate the kernel model (a mismatch is a tool error, never a violation). The name of the executed file is part of "
+               "the kernel's sum: three cost models side by side (MC_C06 'bytes' = pinned revision, 'nofname' = first repair, 'ptr' = now), commands "
+               "behind paths of 2200..3900 bytes at real size. -I: the substituted command line is measured before it is run - MC_Repl checks that "
+               "fold against the kernel rule for every template of up to 3 arguments x line lengths x stack limits (never refused by exec, an over-long "
+               "substituted argument never run, nothing refused that fits with the headroom to spare), the real binary gets lines of 43 690..131 072 "
+               "bytes used one to four times, and the event traces bind the fold to the code's own counters (hook event Subst).",
     level_note="Trusted: TLC; the recorder's summaries; the Linux rules as modelled - checked against the running kernel by the probes on every run.",
     mc=[dict(module="mc/MC_C06.tla", cfg=dict(quick="mc/MC_C06_quick.cfg", thorough="mc/MC_C06_thorough.cfg"), workers=8),
         # -I: the measurement of the substituted command line against the kernel's rule (never refused, never over-strict)
@@ -388,8 +393,9 @@ PROPS["C06"] = dict(
     # leave) after every step, under stack limits that make it the binding one
     more=[dict(record_vh="XLOOP", record=dict(quick=120, thorough=2000), trace=dict(module="trace/T_XLoop.tla", cfg="trace/T_XLoop.cfg"), trace_chunk=40)],
     rule="MC: all argument sequences up to MAXARGS over lengths {1,2,7} x 6 stack limits x 3 environment sizes (scaled: pointer 4, ARGMIN 64, cap 96, "
-         "per-string 16, headroom 8); trace: 10 scenario families x environments x stack limits x {no option, -n 1000, -s 100000}; every fourth "
-         "record a direct execve probe.",
+         "per-string 16, headroom 8) x command names of 3 and 12 bytes; MC_Repl: all templates up to 3 initial arguments (literal bytes {0,1,5}, "
+         "occurrences 0..3) x 8 line lengths x 6 stack limits x 3 environments x 2 command names; trace: 13 scenario families (incl. long command "
+         "paths and -I) x environments x stack limits x {no option, -n 1000, -s 100000}; every fourth record a direct execve probe.",
     exhaustive_note="bounded-exhaustive at model level",
     assumptions=["Linux execve limits (bprm_stack_limits, MAX_ARG_STRLEN); calibrated at run time"],
 )
